@@ -2,12 +2,12 @@
 
 PROP = dict(
     level="proof",
-    lean_modules=['PopsModel.Props.C12'],
-    theorems=['Pops.C12_establish_event', 'Pops.C12_no_susceptible', 'Pops.C12_suitability_range_rejected', 'Pops.C12_lethal', 'Pops.C12_survival'],
-    commands=['hp.dispto', 'hp.lethal', 'hp.survival'],
+    lean_modules=['PopsModel.Props.C12', 'PopsModel.Props.C20'],
+    theorems=['Pops.C12_establish_event', 'Pops.C12_no_susceptible', 'Pops.C12_suitability_range_rejected', 'Pops.C12_lethal', 'Pops.C12_survival', 'Pops.C12_weather_range', 'Pops.C20_err_probabilities'],
+    commands=['hp.dispto', 'hp.lethal', 'hp.survival', 'err.weatherdist', 'err.suitability'],
     runs={
-        "quick": [('h_host', 'pool', 0, 1500), ('h_model', 'model', 0, 400)],
-        "thorough": [('h_host', 'pool', 0, 150000), ('h_model', 'model', 0, 20000)],
+        "quick": [('h_host', 'pool', 0, 1500), ('h_model', 'model', 0, 400), ('h_err', 'errors', 0, 240)],
+        "thorough": [('h_host', 'pool', 0, 150000), ('h_model', 'model', 0, 20000), ('h_err', 'errors', 0, 24000)],
     },
     exhaustive={"quick": False, "thorough": False},
     rule="case (pool) = one random landscape (7 shapes incl. 1x1, 1xN, Nx1, rows != cols; SI/SEI, latency 0..3, 1..4 mortality cohorts, 20% empty cells) with 5-14 random operations (add/land a disperser with scripted uniform, deterministic generation, pests from/to, host move incl. same-cell, removal/pesticide treatment in both modes with coefficients k/64, pesticide end, survival rate, lethal temperature, mortality, latency step); case (model) = one random Model configuration (feature subsets, calendar with day/week/month steps, both entry points, injected kernel throwing dispersers inside / at the source / just outside / far outside) run for up to 40 steps with the state printed after every action; non-trivial = at least 3 different operation kinds on a landscape with a suitable cell (pool) / at least 3 steps (model); distinct = blake2b of the case's protocol lines",
@@ -17,7 +17,7 @@ PROP = dict(
 
 META = dict(engine="h_host", design_ref="DESIGN.md section 3, C12",
     technique='Lean 4 theorems on the L1 model + scripted-uniform correspondence',
-    text="Proof: the establishment event as a set of accepting draws, the deterministic strict comparison, rejection of out-of-range suitability, lethal-temperature and survival-rate rules are theorems about the L1 model for all cell states and parameters. Tied to the code by scripted uniforms (dyadic, exact in double) and the specifications evaluated on HostPool::disperser_to, RemoveByTemperature and SurvivalRateAction with values on and next to the thresholds. That libstdc++'s uniform_real_distribution is uniform is trusted (the probability claim is proved as 'accepting set = [0,p)'); the weather-coefficient distribution part of C12 is not yet covered.",
+    text="Proof: the establishment event as a set of accepting draws, the deterministic strict comparison, rejection of out-of-range suitability, lethal-temperature and survival-rate rules are theorems about the L1 model for all cell states and parameters. Tied to the code by scripted uniforms (dyadic, exact in double) and the specifications evaluated on HostPool::disperser_to, RemoveByTemperature and SurvivalRateAction with values on and next to the thresholds. That libstdc++'s uniform_real_distribution is uniform is trusted (the probability claim is proved as 'accepting set = [0,p)'); weather coefficients drawn from a distribution are proved to lie in [0,1] (normal draw kept only inside the range, else uniform fallback) and means outside [0,1] are rejected; both are checked on Environment::update_weather_from_distribution (h_err).",
     note='Trusted: Lean kernel + propext/Classical.choice/Quot.sound; hand-written L1 model of host_pool.hpp / treatments.hpp / actions.hpp (Model/Host.lean, Treat.lean, Actions.lean); harness and driver. int as unbounded Int; ratios as exact Rat on dyadic inputs (k/64); std::shuffle assumed to produce a permutation (draws are inferred from the observed difference and checked for validity).')
 
 ENGINES = [
